@@ -102,9 +102,10 @@ def eval_catalogue_names(case):
     mine.ram = 0
     for c_ in cat.list_instances().values():
         c_.disk = 0
-    again = InstanceCatalog().get_instance_capacities(instance_type=first)
-    if again is None or any(getattr(again, d) != SIZES[first][d] for d in DIMS):
-        v.append(('catalogue/result-edit-changes-catalogue', f'after editing earlier results {first} reads {again}, file says {SIZES[first]}'))
+    for who, c2 in (('the same catalogue object', cat), ('a new catalogue object', InstanceCatalog())):
+        again = c2.get_instance_capacities(instance_type=first)
+        if again is None or any(getattr(again, d) != SIZES[first][d] for d in DIMS):
+            v.append(('catalogue/result-edit-changes-catalogue', f'after editing earlier results, {who} reads {first} as {again}, file says {SIZES[first]}'))
     got = InstanceCatalog().map_capacities_to_instance(cap=Capacities(**SIZES[first]))
     if got != first:
         v.append(('catalogue/result-edit-changes-sizing', f'after editing earlier results the exact request {SIZES[first]} maps to {got}'))
